@@ -282,7 +282,7 @@ func checkTemplate(c *Ctx, r *Report, format string, ti tmplInfo, spec map[strin
 }
 
 func checkC02(c *Ctx, r *Report) {
-	r.Rules = []string{"F3 template wiring (deb, ipk, apk)", "F4 rpm metadata wiring", "F5 archlinux key/value wiring", "F5b deb triggers / changelog extras", "D3 GOARCH tables vs documentation, override precedence", "F6 version slot depends on every configured component", "ipk reserved field names", "F5b-text rpm changelog text is the rendered notes (TrimSpace only)", "F3-funcs template helper functions write through none of their list arguments", "F6-parsed no branch on the value of a parsed epoch/release", "F3-text the description meets only white-space trimming and line-separator operations", "F4-verbatim rpm relation items reach the relation parser as configured", "arch-W3-idempotent architecture tables are chain-free (imported from C11)", "F5b-each each deb trigger list alone still yields a triggers file (by evaluation)", "wired-F15-self relation lists are expanded from themselves (imported from C16)", "F3 (extended) no field outside a line's own fields decides what the line states", "F5-verbatim single-field .PKGINFO keys state the field unrewritten", "F3-scalar-plain single-line scalar settings are printed without a template function", "F3-fields-range custom fields are ranged over without a function", "F4-list-asis rpm metadata lists and strings are the configured values (no library call between)", "F3-fields-asis packagers add to or replace the custom field maps nowhere (reserved names are removed only)", "kept-D8-packager-store packagers only default-fill version components (rule of C14)"}
+	r.Rules = []string{"F3 template wiring (deb, ipk, apk)", "F4 rpm metadata wiring", "F5 archlinux key/value wiring", "F5b deb triggers / changelog extras", "D3 GOARCH tables vs documentation, override precedence", "F6 version slot depends on every configured component", "ipk reserved field names", "F5b-text rpm changelog text is the rendered notes (TrimSpace only)", "F3-funcs template helper functions write through none of their list arguments", "F6-parsed no branch on the value of a parsed epoch/release", "F3-text the description meets only white-space trimming and line-separator operations", "F4-verbatim rpm relation items reach the relation parser as configured", "arch-W3-idempotent architecture tables are chain-free (imported from C11)", "F5b-each each deb trigger list alone still yields a triggers file (by evaluation)", "wired-F15-self relation lists are expanded from themselves (imported from C16)", "F3 (extended) no field outside a line's own fields decides what the line states", "F5-verbatim single-field .PKGINFO keys state the field unrewritten", "F3-scalar-plain single-line scalar settings are printed without a template function", "F3-fields-range custom fields are ranged over without a function", "F4-list-asis rpm metadata lists and strings are the configured values (no library call between)", "F3-fields-asis packagers add to or replace the custom field maps nowhere (reserved names are removed only)", "kept-D8-packager-store packagers only default-fill version components (rule of C14)", "whole-E8-scanner-err the line scanners that render multi-line text cannot stop at a long line unnoticed (rule of C06)"}
 	r.Explanation = "Wiring of control metadata decided from source. (F3) the deb, ipk and apk control templates — the string constants reaching Template.Parse — are parsed with text/template/parse (never executed) and flattened to label -> fields printed and fields guarding; each label must be fed from exactly the configuration field(s) the statement pairs it with (all relation kinds, identity fields, format extras), optional labels guarded by their own field. (F4) every field of the rpmpack.RPMMetaData literal and (F5) every key of the archlinux key/value writer must derive (field provenance over go/ssa) from exactly its configuration field(s). (F5b) deb trigger directives pair with the like-named trigger lists, the triggers member is written only when non-empty, changelog entries only behind a non-empty changelog setting. (D3) the five GOARCH tables are extracted from the package initialisers and every row of www/docs/goarch-to-pkg.md must hold in code; with a format-specific architecture configured the stored architecture is that value verbatim (abstract evaluation). (F6) with each version component in turn fixed non-empty, the string reaching the rpm Version field, the apk pkgver and the archlinux pkgver must depend on it on every live path. Rendering of concrete text (multi-line descriptions, escaping) is not decided."
 	r.Explanation += " (F5b-text) between the rendered changelog notes and rpm's changelog-text tag only strings.TrimSpace may sit. (F3-funcs) functions registered in the control templates' FuncMaps write through none of their list arguments. (F6-parsed) no branch depends on the value of an epoch/release parsed as an integer."
 	r.Explanation += " (F3-text) in every description helper of a control template, and wherever Info.Description is handed to a library function, only white-space trimming and split/join/replace at constant line separators occur - word-level rewriting changes the synopsis. (F4-verbatim) the string handed to rpmpack's relation parser is a load of a list element, through conversions and phis only. (arch-W3-idempotent) the architecture tables are applied by the file-name function and again by Package: a table with a chain a->b->c states c for a configured a."
@@ -508,6 +508,22 @@ func checkC02(c *Ctx, r *Report) {
 		r.Floor("kept-D8-packager-store", nK, 5)
 	}
 	checkCustomFieldsAsConfigured(c, r, pa)
+	// the description is rendered line by line with a scanner: every line of
+	// it arrives only if the scanner's limit cannot end the loop early (rule
+	// of C06)
+	{
+		tmpS := newReport("tmp")
+		checkScannerErr(c, tmpS)
+		nS := 0
+		for _, o := range tmpS.Obls {
+			if o.Rule == "E8-scanner-err" && strings.Contains(o.Construct, "in memory") {
+				o.Rule = "whole-E8-scanner-err"
+				r.Obls = append(r.Obls, o)
+				nS++
+			}
+		}
+		r.Floor("whole-E8-scanner-err", nS, 1)
+	}
 	r.Floor("wired-F15-self", importRules(c, r, checkC16, "wired-", []string{"F15-self"}, nil), 12)
 }
 
